@@ -21,6 +21,8 @@ fn root() -> &'static PathBuf {
         let p = Path::new(&base).join("work").join("c15").join(std::process::id().to_string());
         let _ = std::fs::remove_dir_all(&p);
         std::fs::create_dir_all(&p).unwrap();
+        // shared parent of the absolute include paths: created once, never removed (other runner processes use it)
+        let _ = std::fs::create_dir_all(Path::new(&base).join("work").join("c15").join("abs"));
         std::env::set_current_dir(&p).unwrap();
         p
     })
@@ -58,7 +60,7 @@ impl Files {
                         }
                     }
                     for m in missing.iter().rev() {
-                        if std::fs::create_dir(m).is_ok() {
+                        if std::fs::create_dir(m).is_ok() && *m != allowed_abs.join("abs") {
                             made.push((m.clone(), true));
                         }
                     }
